@@ -160,11 +160,38 @@ class SimTextW(io.TextIOWrapper):
         return super().write(s)
 
 
+class ShortReadRaw(io.RawIOBase):
+    """Unseekable byte source that delivers at most `n` bytes per read call, like a pipe, a socket-backed
+    file system or a slow device may (legal for read(2); nothing may depend on how the bytes are portioned)."""
+
+    def __init__(self, data, n, counter=None):
+        super().__init__()
+        self._data = data
+        self._pos = 0
+        self._n = max(1, int(n))
+        self._counter = counter
+
+    def readable(self):
+        return True
+
+    def readinto(self, b):
+        k = min(len(b), self._n, len(self._data) - self._pos)
+        b[:k] = self._data[self._pos:self._pos + k]
+        self._pos += k
+        if self._counter is not None and k:
+            self._counter[0] += 1
+        return k
+
+
 class SimTextR(io.TextIOWrapper):
     """Real TextIOWrapper over the stored bytes; counts what the reader pulled."""
 
     def __init__(self, disk, path, hid, data, **kw):
-        self._raw = io.BytesIO(data)
+        if getattr(disk, "short_read", None):
+            disk.short_reads = getattr(disk, "short_reads", None) or [0]
+            self._raw = io.BufferedReader(ShortReadRaw(data, disk.short_read, disk.short_reads), buffer_size=max(16, int(disk.short_read)))
+        else:
+            self._raw = io.BytesIO(data)
         super().__init__(self._raw, **kw)
         self._sim = (disk, path, hid)
         self.path = path
@@ -263,7 +290,9 @@ class _PathDict(dict):
 
 
 class SimDisk:
-    def __init__(self, buffer_size=8192, chunk_size=None, encoding="utf-8", log_events=True):
+    def __init__(self, buffer_size=8192, chunk_size=None, encoding="utf-8", log_events=True, short_read=None):
+        self.short_read = short_read  # raw reads deliver at most this many bytes per call (None: everything asked for)
+        self.short_reads = [0]
         # Paths are resolved the way the operating system does it: relative to the working directory, "." and
         # ".." component by component, symbolic links to directories followed (so "link/.." is the parent of the
         # link's target, not of the link).
